@@ -227,32 +227,27 @@ class Sim:
         return False
 
     def fire_next_timer(self):
-        """Fire one pending timer: the earliest; among timers due at the same instant any one
-        (events at the same virtual instant are unordered, so the order is a decision)."""
+        """Advance the clock to the earliest pending timer and fire it - together with every other timer due at that same
+        instant: events at the same virtual instant are concurrent, so all their threads become runnable at once and the
+        scheduler (a decision) orders them, exactly like threads that wake up at the same moment on a real machine."""
         tm = self.timers
         if not self._drop_stale_timers():
             return False
         first = heapq.heappop(tm)
         when = first[0]
-        ties = None
+        batch = [first]
         while tm and tm[0][0] == when:
             e = heapq.heappop(tm)
             if e[2].state == 'blocked' and e[2].token == e[3]:
-                if ties is None:
-                    ties = [first]
-                ties.append(e)
-        if ties is not None:
-            k = self.choose(len(ties))
-            first = ties.pop(k)
-            for e in ties:
-                heapq.heappush(tm, e)
+                batch.append(e)
+        if len(batch) > 1:
             self.count('timer_tie')
-        _, _, t, tok = first
         if when > self.now:
             self.now = when
-        t.state = 'runnable'
-        t.wake = 'timeout'
-        self._unwait(t)
+        for _, _, t, tok in batch:
+            t.state = 'runnable'
+            t.wake = 'timeout'
+            self._unwait(t)
         return True
 
     def _unwait(self, t):
